@@ -2,4 +2,9 @@
 
 package all
 
-import _ "verif/harness/internal/props/c19"
+import (
+	"verif/harness/internal/props/c19"
+	c19my "verif/harness/internal/props/c19/mysql"
+)
+
+func init() { c19.MySQLLayer = c19my.Layer }
